@@ -223,10 +223,11 @@ func c04(r *core.Run) {
 	var table map[string]int
 	genCensus(r, "c04_usecheck_callers", w.CallersOf(isUseCheck))
 	if r.Table("c04_usecheck_callers", &table) {
-		got := w.CallersOf(isUseCheck)
+		_, deep := callerCounts(w, isUseCheck, func(*types.Func) string { return "usecheck" })
 		for k, n := range table {
-			r.Check(len(got[k]) >= n, "R2.usecheck", k+" -> invalidated-reference use check", firstOf(got[k]),
-				"reviewed use-check call site(s) present", "the invalidated-reference use check was removed from this function (reviewed count "+itoa(n)+", now "+itoa(len(got[k]))+")")
+			now := deep[k+" -> usecheck"]
+			r.Check(now >= n, "R2.usecheck", k+" -> invalidated-reference use check", 0,
+				"reviewed use-check call site(s) present", "the invalidated-reference use check was removed from this function (reviewed count "+itoa(n)+", now "+itoa(now)+")")
 		}
 	}
 	r.Floor("R2.usecheck", 10)
@@ -363,9 +364,11 @@ func c23(r *core.Run) {
 		}
 		got := w.CallersOf(isRem)
 		genCensus(r, "c23_remove_edges", got)
+		_, deep := callerCounts(w, isRem, func(*types.Func) string { return "remove" })
 		for k, n := range table {
-			r.Check(len(got[k]) >= n, "R2.edges", k+" -> DeepRemove/RemoveReferencedSlab", firstOf(got[k]),
-				"slab-removal call(s) present", "a reviewed slab-removal call was dropped from this function (reviewed count "+itoa(n)+", now "+itoa(len(got[k]))+"): replaced or removed values leave orphaned slabs")
+			now := deep[k+" -> remove"]
+			r.Check(now >= n, "R2.edges", k+" -> DeepRemove/RemoveReferencedSlab", firstOf(got[k]),
+				"slab-removal call(s) present", "a reviewed slab-removal call was dropped from this function (reviewed count "+itoa(n)+", now "+itoa(now)+"): replaced or removed values leave orphaned slabs")
 		}
 	}
 	r.Floor("R2.edges", 20)
